@@ -181,6 +181,16 @@ def run_shift(payload):
     for k in (1, 7):
         obs.append(e.run_program("\n" * k + src.replace(G.MARK, " " * k), tl=tl))
         exp.append(shift_expected(base, k))
+    # ... and the line itself is the line of the code that raised the error (the marked line), wherever that code sits:
+    # at program level, in a function, in a callback run by a built-in, in an accessor
+    m = _LOC.search(base)
+    want = src[:src.index(G.MARK)].count("\n") + 1
+    got = "none"
+    if m and len(m.group(1)) == 17 and m.group(1)[0] == "d":
+        got = "%g" % struct.unpack(">d", bytes.fromhex(m.group(1)[1:]))[0]
+    if '[s"L",' in base:
+        obs.append("line=" + got)
+        exp.append("line=%d" % want)
     return " ## ".join(obs) + "\x00" + " ## ".join(exp)
 
 
@@ -207,8 +217,8 @@ def shift_space():
                  nontrivial=lambda cid, payload, exp: '[s"L",d' in exp,
                  rule="programs of family A that catch an error object and log e.lineNumber/e.columnNumber, run "
                       "unshifted and shifted by k in {1, 7} leading newlines plus k leading spaces on the throwing "
-                      "line; expected = unshifted outcome with line and column increased by k. Non-trivial = the "
-                      "unshifted run reports a numeric line", bound="error sites x 4 placements x 2 contexts x k in {1,7}",
+                      "line; expected = unshifted outcome with line and column increased by k, and the reported line is the marked "
+                      "line (the line of the code that raised the error). Non-trivial = the unshifted run reports a numeric line", bound="error sites x 4 placements x 2 contexts x k in {1,7}",
                  batch=50)
 
 
